@@ -623,8 +623,26 @@ fn gen_tie(r: &mut Rng, ty: FloatTy, sw: &Swarm) -> (Vec<u8>, u64) {
             },
         ),
         1 | 4 => {
-            let j = 1 + r.below(3) as usize;
-            (format!("{}{}1", d, "0".repeat(j - 1)), k as i64 - j as i64, up)
+            // midpoint + epsilon.  Usually the epsilon is 1-3 digits further on; sometimes it sits just
+            // beyond the number of digits any parser needs to keep (768 for f64, 113 for f32), where it
+            // can only be noticed by scanning the truncated tail for a non-zero digit
+            let keep_limit = match ty {
+                FloatTy::F64 => 768usize,
+                FloatTy::F32 => 113usize,
+            };
+            let far = !sw.small && r.chance(1, 4) && d.len() < keep_limit + 8;
+            let j = if far {
+                keep_limit + r.below(10) as usize - d.len().min(keep_limit) + 1
+            } else {
+                1 + r.below(3) as usize
+            };
+            // and the tail may run on with zeros after the epsilon digit
+            let z = if far {
+                r.below(48) as usize
+            } else {
+                0
+            };
+            (format!("{}{}1{}", d, "0".repeat(j - 1), "0".repeat(z)), k as i64 - j as i64 - z as i64, up)
         },
         _ => {
             let j = 1 + r.below(3) as usize;
